@@ -209,6 +209,61 @@ fn api_case(o: &mut Out, rng: &mut Rng, w: u32, h: u32, color: u8, depth: u8) {
     }
 }
 
+/// interlaced APNG: the rows reported for a sub-frame are the specification's rows for the FRAME's own width and height (not the canvas's), and
+/// re-assembling them with the public helper gives the frame (every pixel once, the rest of the destination untouched)
+fn api_subframe_case(o: &mut Out, rng: &mut Rng, cw: u32, ch: u32, fw: u32, fh: u32, fx: u32, fy: u32) {
+    let b = crate::gen::apng_with_rect(rng, cw, ch, fw, fh, fx, fy, true);
+    let bits = samples(b.spec.color) * b.spec.depth as usize;
+    let fill = *rng.pick(&[0x00u8, 0xFF, 0x5A]);
+    let extra = *rng.pick(&[0usize, 0, 3]);
+    let r = guarded(|| -> Result<Vec<(Vec<String>, Vec<u8>, usize)>, String> {
+        let mut dec = png::Decoder::new(std::io::Cursor::new(&b.bytes));
+        dec.set_transformations(png::Transformations::IDENTITY);
+        let mut rd = dec.read_info().map_err(|e| format!("read_info: {}", e))?;
+        let mut out = vec![];
+        for (k, f) in b.frames.iter().enumerate() {
+            if k > 0 { rd.next_frame_info().map_err(|e| format!("next_frame_info: {}", e))?; }
+            let stride = (f.w as usize * bits + 7) / 8 + extra;
+            let mut dest = vec![fill; stride * f.h as usize];
+            let mut infos = vec![];
+            while let Some(row) = rd.next_interlaced_row().map_err(|e| format!("row of frame {}: {}", k, e))? {
+                let info = match row.interlace() { png::InterlaceInfo::Adam7(i) => *i, _ => return Err("non-adam7 info on interlaced image".into()) };
+                infos.push(format!("{:?}", info));
+                png::expand_interlaced_row(&mut dest, stride, row.data(), &info, bits as u8);
+            }
+            out.push((infos, dest, stride));
+        }
+        Ok(out)
+    });
+    o.direct_checks += 1;
+    o.count("api.apng-subframes");
+    o.distinct(&format!("S{}x{}-{}x{}", cw, ch, fw, fh));
+    let mut fail: Option<(&str, String)> = None;
+    match &r {
+        Err(m) => fail = Some(("panic-decoding-interlaced-png", m.clone())),
+        Ok(Err(e)) => fail = Some(("valid-interlaced-png-rejected", e.clone())),
+        Ok(Ok(frames)) => {
+            for (k, ((infos, dest, stride), f)) in frames.iter().zip(b.frames.iter()).enumerate() {
+                let want_infos: Vec<String> = adam7_rows_ref(f.w, f.h).iter().map(|(p, l, lw)| format!("{:?}", png::Adam7Info::new(*p, *l, *lw))).collect();
+                if *infos != want_infos { fail = Some(("reported-interlaced-rows-differ-from-specification", format!("frame {} ({}x{} on a {}x{} canvas): {} ; specification: {}", k, f.w, f.h, cw, ch, infos.join(";"), want_infos.join(";")))); break; }
+                let line = (f.w as usize * bits + 7) / 8;
+                let mut want = vec![fill; stride * f.h as usize];
+                for y in 0..f.h as usize {
+                    for q in 0..(f.w as usize * bits) {
+                        let bit = (f.pixels[y * line + q / 8] >> (7 - q % 8)) & 1;
+                        let d = y * stride * 8 + q;
+                        if bit == 1 { want[d / 8] |= 1 << (7 - d % 8); } else { want[d / 8] &= !(1 << (7 - d % 8)); }
+                    }
+                }
+                if *dest != want { fail = Some(("reassembled-interlaced-image-differs", format!("frame {}: {} ; specification: {}", k, hex(dest), hex(&want)))); break; }
+            }
+        }
+    }
+    if let Some((kind, got)) = fail {
+        o.violation(viol(kind, vec![("canvas", jstr(&format!("{}x{}", cw, ch))), ("subframe", jstr(&format!("{}x{}+{}+{}", fw, fh, fx, fy))), ("file", jstr(&hex(&b.bytes))), ("impl", jstr(&got))]));
+    }
+}
+
 pub fn run(a: &Args) {
     let mut o = Out::new(&a.out);
     let mut rng = Rng::new(a.seed);
@@ -314,6 +369,20 @@ pub fn run(a: &Args) {
         let (c, d) = *rng.pick(&kinds);
         let (w, h) = (rng.range(1, 130) as u32, rng.range(1, 40) as u32);
         api_case(&mut o, &mut rng, w, h, c, d);
+    }
+    // (5) interlaced APNG sub-frames of every size inside small canvases, and random ones inside larger canvases
+    let (mw, mh) = if thorough { (9u32, 9u32) } else { (6, 5) };
+    for fw in 1..=mw {
+        for fh in 1..=mh {
+            let (fx, fy) = (rng.range(0, (mw - fw) as u64) as u32, rng.range(0, (mh - fh) as u64) as u32);
+            api_subframe_case(&mut o, &mut rng, mw, mh, fw, fh, fx, fy);
+        }
+    }
+    for _ in 0..(if thorough { 300 } else { 30 }) {
+        let (cw, ch) = (rng.range(2, 40) as u32, rng.range(2, 24) as u32);
+        let (fw, fh) = (rng.range(1, cw as u64) as u32, rng.range(1, ch as u64) as u32);
+        let (fx, fy) = (rng.range(0, (cw - fw) as u64) as u32, rng.range(0, (ch - fh) as u64) as u32);
+        api_subframe_case(&mut o, &mut rng, cw, ch, fw, fh, fx, fy);
     }
     o.finish();
 }
